@@ -85,8 +85,27 @@ func applyK(s *state.StateDB, o *op) (root common.Hash) {
 
 // applyG applies the op to go-ethereum's StateDB where the operation exists there (v1.9.15 has no access list, no
 // transient storage and no SetTxContext).
-func applyG(g *gstate.StateDB, o *op) (root gcommon.Hash) {
+//
+// Known deviation of the reference: in v1.9.15 resetObjectChange.dirtied() returns nil, i.e. an account re-created over
+// an existing (or deleted-in-this-block) object is not marked touched and, unless something else dirties it, is neither
+// written nor cleared at the end of the transaction (repaired upstream later; go-kardia has the repaired journal). When
+// the model says the operation re-created an object, the adapter adds SetNonce(a, GetNonce(a)) after the operation — a
+// no-op that only marks the object dirty.
+//
+// Second known deviation: v1.9.15 CreateAccount carries over the balance of an object that was already deleted at the end
+// of an earlier transaction of the block (value sent to a self-destructed account after its SELFDESTRUCT re-appears);
+// upstream later restricted the carry-over to live objects, as go-kardia does. When the model says the account did not
+// exist, the adapter zeroes the balance of the re-created account on the reference side.
+func applyG(g *gstate.StateDB, o *op, reset, existed bool) (root gcommon.Hash) {
 	a := gcommon.Address(addrs[o.a])
+	if reset {
+		defer func() {
+			if o.k == opCreate && !existed {
+				g.SetBalance(a, new(big.Int))
+			}
+			g.SetNonce(a, g.GetNonce(a))
+		}()
+	}
 	switch o.k {
 	case opAddBal:
 		g.AddBalance(a, o.amount())
@@ -160,7 +179,7 @@ func observeK(s *state.StateDB, txs []common.Hash) *obs {
 			continue
 		}
 		var sb strings.Builder
-		fmt.Fprintf(&sb, "%x:", th[:2])
+		fmt.Fprintf(&sb, "%x:", th[29:])
 		for _, l := range ls {
 			ai := -1
 			for i, a := range addrs {
@@ -169,7 +188,7 @@ func observeK(s *state.StateDB, txs []common.Hash) *obs {
 				}
 			}
 			if l.TxHash != th {
-				o.Err += fmt.Sprintf("log under %x carries TxHash %x;", th[:2], l.TxHash[:2])
+				o.Err += fmt.Sprintf("log under %x carries TxHash %x;", th[29:], l.TxHash[29:])
 			}
 			fmt.Fprintf(&sb, " a%d/%d/%d", ai, l.TxIndex, l.Index)
 		}
